@@ -228,14 +228,16 @@ CLAIMED.update({
                 "all() and of(k, n), on every document value: the batches the loader compiles evaluate to the documented combination "
                 "of the members as written), mapping_refines_lists / identifier_refines_lists (mappings = first-non-true conjunction "
                 "in written order, nested blocks of any depth over objects and arrays of objects, sequences = disjunctions), "
-                "cond_refines (every condition the parser can produce), rule_refines_lists: EVERY loadable rule whose identifier "
-                "blocks are built from scalars, lists of scalars, nested blocks and sequences of mappings has, on every document, "
-                "exactly the reference's result; matches = true only; a missing field is never true -- outside the executable classes "
-                "of the listed findings (D10/D11, D24, D26 per document, D28, D32). On the crate structure-first random rules x 8 "
+                "cond_refines (every condition the parser can produce), rule_refines_final (C02_final; first versions rule_refines_lists, "
+                "rule_refines_all): EVERY loadable rule whose identifier blocks are built from scalars, lists of scalars, lists of "
+                "mappings, nested blocks of any depth and sequences of mappings -- the whole identifier language -- has, on every "
+                "document, exactly the reference's result; matches = true only; a missing field is never true -- outside the "
+                "executable classes of the listed findings only (D10/D11, D24, D26 per document, D28, D32; D27, D30, D31 were "
+                "repaired in the crate). On the crate structure-first random rules x 8 "
                 "documents and the coverage families are compared with the extracted reference; a difference is accepted only when "
                 "the engine model reproduces the crate and a listed classifier accepts the rule.",
-        "note": TB + "Not in the theorems' fragment: lists whose members are MAPPINGS under a key (covered by the correspondence "
-                "against the reference). The YAML-integer range hypothesis (i64 or u64) is what serde_yaml can hold.",
+        "note": TB + "Not in the theorems' fragment: tagged values, non-string keys and lists that mix mappings with scalars (covered by the "
+                "correspondence against the reference). The YAML-integer range hypothesis (ints_ok: i64 or u64) is what serde_yaml can hold.",
         "technique": "Coq proof of refinement (engine model vs documented reference semantics): counting invariant over the "
                      "loader's batching, induction over YAML depth and condition trees + differential crate vs extracted "
                      "reference with classifier-gated known findings",
